@@ -47,6 +47,9 @@ func runC05(r *Run) {
 	if r.NumViolations() == 0 {
 		c05TrailerHeaders(r)
 	}
+	if r.NumViolations() == 0 {
+		c05SlowHandler(r)
+	}
 	// the per-call order of envelopes also holds for calls relayed by a proxy (c02c.go)
 	if r.NumViolations() == 0 {
 		c02ViaProxy(r)
